@@ -331,7 +331,7 @@ func TestVerif_C15_TCPMux(t *testing.T) {
 				handles[u] = append(handles[u], h)
 				ops = append(ops, fmt.Sprintf("getConn(%s)", u))
 			case "client":
-				kind := rapid.SampledFrom([]string{"valid", "valid", "valid", "oversized-first", "non-stun", "non-binding", "no-username", "huge-length", "connect-close", "slow-loris", "partial-frame", "dribble", "duplicate-address"}).Draw(rt, "kind")
+				kind := rapid.SampledFrom([]string{"valid", "valid", "valid", "valid-with-coalesced-followups", "oversized-first", "non-stun", "non-binding", "no-username", "huge-length", "connect-close", "slow-loris", "partial-frame", "dribble", "duplicate-address"}).Draw(rt, "kind")
 				if (kind == "slow-loris" || kind == "partial-frame" || kind == "dribble") && !timed {
 					kind = "non-stun"
 				}
@@ -356,6 +356,40 @@ func TestVerif_C15_TCPMux(t *testing.T) {
 				ops = append(ops, fmt.Sprintf("client#%d(%s,%s)", cl.id, kind, u))
 				first := c15StunBinding(u+":peer", true, stun.MethodBinding)
 				switch kind {
+				case "valid-with-coalesced-followups":
+					// the client does not wait for the answer: further frames arrive in the same segment as its first
+					nMore := rapid.IntRange(1, 4).Draw(rt, "followups")
+					wire := c15Frame(first)
+					var more [][]byte
+					for k := 0; k < nMore; k++ {
+						p := bytes.Repeat([]byte{byte('a' + k)}, rapid.SampledFrom([]int{1, 20, 300, 700}).Draw(rt, "followupLen"))
+						more = append(more, p)
+						wire = append(wire, c15Frame(p)...)
+					}
+					if len(handles[u]) == 0 {
+						kind = "valid" // (a provisional connection has a small queue: not the subject here)
+						wire = c15Frame(first)
+						more = nil
+					}
+					go func() { _ = send(cl, wire) }()
+					if !waitFor(func() bool { return attached(u, cl.remote) }, 20*time.Second) {
+						fail("C15/attach/valid-client-not-attached", "%s: valid client %s not attached to ufrag %s", where, cl.remote, u)
+					}
+					if len(handles[u]) == 0 {
+						if _, ok := provisionalAt[u]; !ok {
+							provisionalAt[u] = time.Now()
+						}
+						lbl["unknown-ufrag"] = true
+					}
+					expect[u] = append(expect[u], c15Expect{first, cl.remote.String()})
+					for _, p := range more {
+						expect[u] = append(expect[u], c15Expect{p, cl.remote.String()})
+					}
+					if len(more) > 0 {
+						lbl["frames-coalesced-with-the-first"] = true
+					}
+					cl.kind = "valid"
+					lbl["valid-client"] = true
 				case "valid":
 					if err := send(cl, c15Frame(first)); err != nil {
 						fail("C15/client/first-write", "%s: %v", where, err)
@@ -410,7 +444,7 @@ func TestVerif_C15_TCPMux(t *testing.T) {
 						}
 					}()
 				}
-				if kind != "valid" && kind != "duplicate-address" {
+				if kind != "valid" && kind != "valid-with-coalesced-followups" && kind != "duplicate-address" {
 					lbl["hostile-client"] = true
 					limit := 20 * time.Second
 					if kind == "slow-loris" || kind == "partial-frame" || kind == "dribble" {
